@@ -58,7 +58,7 @@ def lab_key(lab):
     return lab if isinstance(lab, str) else float(lab)
 
 
-def check_summary(out, obj, case, sample, dropna):
+def check_summary(out, obj, case, sample, dropna_all, labelled_nan=()):
     feats = list(obj.features)
     summ = observe(obj.summary)
     if not summ.ok:
@@ -70,6 +70,7 @@ def check_summary(out, obj, case, sample, dropna):
         out.violate("summary-features-differ", f"summary lists {sorted(set(listed))} vs features {sorted(feats)}")
         return
     for feat, raw, spec in feature_views(obj, case):
+        dropna = dropna_all or feat in labelled_nan
         one = observe(obj.summary, feat)
         if not one.ok:
             out.violate(f"summary-of-feature-raised:{one.bucket()}", f"summary({feat!r}) raised {one.exc!r}")
